@@ -56,33 +56,6 @@ def arrival_key(frag):
     return (frag['ctg'], max(starts))
 
 
-def mate_coords(frag):
-    """reference (start, end) of R1 and R2 (None if the mate is absent/unmapped)"""
-    site, L, rl, clip = frag['site'], frag['L'], frag['rl'], frag.get('clip', 0)
-    rl1 = min(rl, L)
-    rl2 = min(rl, L)
-    kind = frag.get('kind', 'nla')
-    off = 4 if kind == 'nla' else (1 if kind == 'chic' else 0)
-    if not frag['rev']:
-        anchor = site if kind != 'chic' else site - 1 + 1  # see build_reads
-        r1s = anchor + clip
-        r1e = anchor + rl1
-        r2e = anchor + L
-        r2s = r2e - rl2
-    else:
-        anchor = site + off
-        r1e = anchor - clip
-        r1s = anchor - rl1
-        r2s = anchor - L
-        r2e = r2s + rl2
-    d = frag.get('defect')
-    if d in ('single', 'orphan_r1', 'r2unmapped'):
-        r2s = r2e = None
-    if d in ('orphan_r2', 'r1unmapped'):
-        r1s = r1e = None
-    return r1s, r1e, r2s, r2e
-
-
 def sort_fragments(frags):
     """order in which a coordinate-sorted BAM hands the pairs to the molecule iterator (stable)"""
     return sorted(frags, key=arrival_key)
@@ -165,12 +138,12 @@ def truth_classes(frags, keyf=None):
 
 
 # --------------------------------------------------------------------------------------
-# coordinates per protocol flavour (overrides the early draft above)
+# coordinates per protocol flavour
 
 _OFF = {'nla': (0, 4), 'chic': (2, -1), 'plain': (0, 0)}
 
 
-def mate_coords(frag):  # noqa: F811  (final definition)
+def mate_coords(frag):
     """reference (start, end) of the aligned part of R1 and R2; None for an absent / unmapped mate"""
     site, L, rl, clip = frag['site'], frag['L'], frag['rl'], frag.get('clip', 0)
     rl1 = rl2 = min(rl, L)
